@@ -99,13 +99,15 @@ def translate_c_from_projectq(projectq_str):
     # Ignore Measure instructions
     projectq_str = re.sub(r'Measure(.*)\n', '', projectq_str)
 
-    # Ignore allocate and deallocate instructions.
-    # Number of qubits is inferred by the abstract circuit, no (de)allocation will occur mid-circuit.
+    # Allocate instructions give the size of the register (qubits without gates are otherwise lost); they and the
+    # deallocate instructions are then ignored, no (de)allocation will occur mid-circuit.
+    allocated = [int(index) for index in re.findall(r'Allocate \| Qureg\[(\d+)\]', projectq_str)]
+    n_qubits = max(allocated) + 1 if allocated else None
     projectq_str = re.sub(r'(.*)llocate(.*)\n', '', projectq_str)
     projectq_gates = [instruction for instruction in projectq_str.split("\n") if instruction]
 
     # Translate instructions to abstract gates
-    abs_circ = Circuit()
+    abs_circ = Circuit(n_qubits=n_qubits)
     for projectq_gate in projectq_gates:
 
         # Extract gate name, qubit indices and parameter value (single parameter for now)
